@@ -2,7 +2,7 @@
    ExtrOcamlBasic only (bool, option, unit, prod, list, sumbool, sumor mapped to OCaml's); no Extract Constant;
    N, Z, positive, nat, string stay the extracted inductives. *)
 From Coq Require Import NArith ZArith List Bool String Extraction ExtrOcamlBasic.
-From VGW Require Import Base.Bytes Crypto.Sha256 Crypto.Crc Model.SignedChunk Model.UnsignedChunk.
+From VGW Require Import Base.Bytes Crypto.Sha256 Crypto.Crc Model.SignedChunk Model.UnsignedChunk Model.Pipeline.
 Import ListNotations.
 Open Scope N_scope.
 
@@ -18,4 +18,11 @@ Definition run_signed (key stsPayload stsTrailer : bytes) (tr : option trailer_k
 Definition run_unsigned (kind : trailer_kind) (stream : bytes) (bufs : list nat) (dflt : nat) : bytes * uerr :=
   urun kind (S (S (List.length stream))) (uinit stream) bufs dflt [].
 
-Extraction "chunkmodel.ml" signing_key run_signed run_unsigned sha256 hmac256 crc32 crc32c base64.
+(* the upload pipeline with the chunk-reader models plugged in; digests are supplied by the driver *)
+Definition run_upload (sha256hex md5b64 : bytes -> bytes) (ck : calgo -> bytes -> bytes)
+                      (key stsPayload stsTrailer seed : bytes) (u : upload) : outcome :=
+  upload_outcome sha256hex md5b64 ck
+    (fun tr frags => run_signed key stsPayload stsTrailer tr seed frags)
+    (fun k stream => run_unsigned k stream [] 32768%nat) u.
+
+Extraction "chunkmodel.ml" signing_key run_signed run_unsigned run_upload sha256 hmac256 crc32 crc32c base64.
